@@ -510,6 +510,12 @@ def any_coord(R, w, h):
     return (R.randint(-30, 30), R.randint(-30, 30))
 
 
+def beyond_coord(R, w, h):
+    """coordinates beyond the index range -size..size-1 of a w x h nested list (IndexError in place_agent)"""
+    return R.choice([(w, 0), (0, h), (w + 3, h + 3), (-w - 1, 0), (0, -h - 2), (R.randrange(w), h), (w, R.randrange(h)),
+                     (-w - 1 - R.randrange(3), R.randrange(h)), (R.randrange(w), -h - 1), (2 * w, -1), (-1, h)])
+
+
 def mte_script(R, impl):
     empt = impl.empty_cells()
     n, w, h = len(empt), impl.w, impl.h
@@ -699,6 +705,7 @@ def gen_c08(R, tier, rejecting=False):
                 b.add(f"place {a} {x} {y}")
         b.add("dump")
     n_ops = R.randint(5, 40 if tier == "quick" else 60)
+    frozen = False
     if layers and not rejecting:
         for _ in range(R.randint(0, 6)):
             b.add(gen_lset(R, impl))
@@ -706,6 +713,8 @@ def gen_c08(R, tier, rejecting=False):
         placed = [i for i, a in enumerate(impl.agents) if a.pos is not None]
         unplaced = [i for i, a in enumerate(impl.agents) if a.pos is None]
         k = R.random()
+        if frozen:
+            k = 0.99  # reads only
         mut = True
         if rejecting and k < 0.5:
             # a call that is (likely to be) rejected, chosen among the kinds applicable in this state
@@ -723,11 +732,16 @@ def gen_c08(R, tier, rejecting=False):
                 kinds += ["mte-script", "mto-script"]
             if unplaced and impl.multi:
                 kinds += ["remove-unplaced", "move-unplaced", "mte-unplaced"]
+            if unplaced:
+                kinds += ["place-beyond", "place-beyond"]
             kind_ = R.choice(kinds)
             far = lambda: R.choice([(-1, 0), (w, 0), (0, -1), (0, h), (w + 3, h + 3), (-5, 2), (R.randrange(w), h), (w, R.randrange(h))])  # noqa: E731
             if kind_ == "move-oob":
                 x, y = far()
                 b.add(f"move {R.choice(placed)} {x} {y}")
+            elif kind_ == "place-beyond":
+                x, y = beyond_coord(R, w, h)
+                b.add(f"place {R.choice(unplaced)} {x} {y}")
             elif kind_ in ("move-occupied", "mto-occupied"):
                 a = R.choice(placed)
                 x, y = pos_of[R.choice([i for i in placed if i != a])]
@@ -778,9 +792,19 @@ def gen_c08(R, tier, rejecting=False):
                 b.add(f"mte {R.choice(unplaced)} : " + " ".join(map(str, mte_script(R, impl))))
         elif oq and unplaced and k < 0.10:
             b.add(f"foreign {R.choice(unplaced)} {R.randrange(w)} {R.randrange(h)}")
+        elif oq and unplaced and k < 0.16 and step >= n_ops // 3:
+            # outside the quantifier: coordinates in the aliasing band -size..-1; the last mutating call of the scenario
+            # (the model covers the call itself; `remove_agent` of an agent whose pos is no cell of the grid is not modelled)
+            x, y = R.randrange(-w, w), R.randrange(-h, h)
+            if x >= 0 and y >= 0:
+                x = -1 - R.randrange(w)
+            b.add(f"place {R.choice(unplaced)} {x} {y}")
+            frozen = True
         elif k < 0.22 and (unplaced or (oq and placed)):
             a = R.choice(placed) if (oq and placed and (not unplaced or R.random() < 0.6)) else R.choice(unplaced)
             x, y = R.randrange(w), R.randrange(h)
+            if a in unplaced and R.random() < 0.07:
+                x, y = beyond_coord(R, w, h)  # IndexError (also on a torus: place_agent never wraps)
             b.add(f"place {a} {x} {y}")
         elif k < 0.30 and (placed or unplaced):
             a = R.choice(placed) if placed and R.random() < 0.9 else R.randrange(nag)
@@ -947,7 +971,7 @@ def exhaustive_c08_net():
 
 def exhaustive_c08_grid():
     """bounded-exhaustive grid state machine on a 2x1 grid with two agents: every within-quantifier history of length <= 3 over
-    {place a c, remove a, move a t (in-grid, x beyond the edge, y beyond the edge), swap} — first with `empties` never read, then
+    {place a c (both cells and one beyond the grid), remove a, move a t (in-grid, x beyond the edge, y beyond the edge), swap} — first with `empties` never read, then
     (length <= 2) with `empties` built —, a dump after every call.  Removing both agents returns to the initial observable state
     (`remove_agent` of an unplaced agent is silent on a SingleGrid and a rejected TypeError on a MultiGrid), so the histories are
     chained in one scenario per class and torus flag.  A tiny simulation of occupancy decides which `place` calls are within
@@ -958,7 +982,7 @@ def exhaustive_c08_grid():
     targets = [(0, 0), (1, 0), (2, 0), (0, -1)]
     ops = [("swap", 0, 1)]
     for a in (0, 1):
-        ops += [("place", a, c) for c in cells] + [("remove", a, None)] + [("move", a, t) for t in targets]
+        ops += [("place", a, c) for c in cells + [(2, 0)]] + [("remove", a, None)] + [("move", a, t) for t in targets]
 
     def simulate(hist, multi, torus):
         """-> lines or None if a place call would leave the quantifier"""
@@ -968,8 +992,8 @@ def exhaustive_c08_grid():
             if k == "place":
                 if pos[a] is not None:
                     return None
-                if multi or not occ(x):
-                    pos[a] = x
+                if x in cells and (multi or not occ(x)):
+                    pos[a] = x  # (2, 0) is beyond the grid: IndexError, nothing changes
                 body.append(f"place {a} {x[0]} {x[1]}")
             elif k == "remove":
                 pos[a] = None
@@ -989,16 +1013,17 @@ def exhaustive_c08_grid():
     out = []
     for kind in ("single", "multi"):
         for torus in (0, 1):
-            lines = [grid_header(kind, 2, 1, torus, False, 2)]
+            # one scenario per (empties built?, first call of the history): each starts from a fresh grid
             for built, length in ((False, 3), (True, 2)):
-                if built:
-                    lines += ["empties", "dump"]
-                for n in range(1, length + 1):
-                    for hist in itertools.product(ops, repeat=n):
-                        body = simulate(hist, kind == "multi", torus)
-                        if body:
-                            lines += body + (["empties", "mask"] if built and n == length else [])
-            out.append(core.Scenario(lines, {"exhaustive": True}))
+                for first in ops:
+                    lines = [grid_header(kind, 2, 1, torus, False, 2)] + (["empties", "dump"] if built else [])
+                    for n in range(1, length + 1):
+                        for rest in itertools.product(ops, repeat=n - 1):
+                            body = simulate((first, *rest), kind == "multi", torus)
+                            if body:
+                                lines += body + (["empties", "mask"] if built and n == length else [])
+                    if len(lines) > 3:
+                        out.append(core.Scenario(lines, {"exhaustive": True}))
     return out
 
 
@@ -1306,9 +1331,18 @@ def closest_ties(H, ps, cur):
     return [q for q in ps if torus_dist_sq(H, q, cur) == best]
 
 
+def aliased_place(H, line):
+    """a `place` whose coordinates lie in Python's aliasing band -size..-1 (accepted by place_agent, leaves pos outside the grid)"""
+    t = line.split()
+    if t[0] != "place" or H["type"] != "grid":
+        return False
+    x, y = int(t[2]), int(t[3])
+    return -H["w"] <= x < H["w"] and -H["h"] <= y < H["h"] and (x < 0 or y < 0)
+
+
 def oracle_c08(sc, obs):
     H = _hdr(sc)
-    if sc.meta.get("oq") or any(l.startswith("foreign ") for l in sc.lines):
+    if sc.meta.get("oq") or any(l.startswith("foreign ") or aliased_place(H, l) for l in sc.lines[1:]):
         return []  # outside the quantifier (also after shrinking): model-vs-code tie only
     if H["type"] == "net":
         return oracle_c08_net(sc, obs, H)
@@ -1515,7 +1549,11 @@ def oracle_c08(sc, obs):
             if Ac != want:
                 diff = sorted(c for c in want if want[c] != Ac.get(c))
                 bad.append(f"lists: {where}: cell list(s) {diff} are {[Ac.get(c) for c in diff]}, expected {[want[c] for c in diff]}")
-        if k == "place" and pa is None:
+        if k == "place" and pa is None and not ing((int(op[2]), int(op[3]))):
+            # beyond the grid's index range (the aliasing band never gets here): IndexError, on a torus too; nothing changes
+            if res != "err Index":
+                bad.append(f"place-outside: {where}: placing outside the grid gave {res}, pos {A['pos'][a]}")
+        elif k == "place" and pa is None:
             p = (int(op[2]), int(op[3]))
             occupied = bool(Bc[p])
             if not multi and occupied:
@@ -1763,8 +1801,70 @@ def _hex_tables_probe():
     return ev, od
 
 
+GRID_PARAMS = ["pos", "moore", "include_center", "radius"]
+HEX_PARAMS = ["pos", "include_center", "radius"]
+
+
+def _cache_keys_ast(src):
+    """{"_Grid": (params, key names), "_HexGrid": …}: the parameters (without self) of the two get_neighborhood functions and the
+    names in the tuple that indexes self._neighborhood_cache when the result is stored (a name is resolved through its assignment)"""
+    out = {}
+    for cls in ast.parse(src).body:
+        if isinstance(cls, ast.ClassDef) and cls.name in ("_Grid", "_HexGrid"):
+            for fn in cls.body:
+                if isinstance(fn, ast.FunctionDef) and fn.name == "get_neighborhood":
+                    params = [a.arg for a in fn.args.args[1:]]
+                    assigns, key = {}, None
+                    for node in ast.walk(fn):
+                        if isinstance(node, ast.Assign) and len(node.targets) == 1:
+                            t = node.targets[0]
+                            if isinstance(t, ast.Name):
+                                assigns.setdefault(t.id, node.value)
+                            elif isinstance(t, ast.Subscript) and ast.unparse(t.value) == "self._neighborhood_cache":
+                                key = t.slice
+                    if isinstance(key, ast.Name):
+                        key = assigns.get(key.id)
+                    if isinstance(key, ast.Tuple) and all(isinstance(e, ast.Name) for e in key.elts):
+                        out[cls.name] = (params, [e.id for e in key.elts])
+    return out
+
+
+def _cache_keys_probe():
+    """which arguments the cache distinguishes, by behaviour: two calls that differ in one argument only must leave two entries"""
+    _, space = _mesa()
+    res = {}
+    for name, cls, base, other in (
+            ("_Grid", space.SingleGrid, {"pos": (3, 3), "moore": True, "include_center": False, "radius": 1},
+             {"pos": (2, 3), "moore": False, "include_center": True, "radius": 2}),
+            ("_HexGrid", space.HexSingleGrid, {"pos": (3, 3), "include_center": False, "radius": 1},
+             {"pos": (2, 3), "include_center": True, "radius": 2})):
+        seen = []
+        for k in base:
+            g = cls(8, 8, False)
+            g.get_neighborhood(**base)
+            n = len(g._neighborhood_cache)
+            g.get_neighborhood(**{**base, k: other[k]})
+            if len(g._neighborhood_cache) == n + 1:
+                seen.append(k)
+        res[name] = (list(base), seen)
+    return res
+
+
 def gen_tables():
     _, space = _mesa()
+    src = open(space.__file__).read()
+    probe = _cache_keys_probe()
+    try:
+        keys = _cache_keys_ast(src)
+    except Exception:  # noqa: BLE001
+        keys = {}
+    key_how = {}
+    for c in ("_Grid", "_HexGrid"):
+        if c in keys and set(keys[c][1]) == set(probe[c][1]):
+            key_how[c] = "ast (parameter list and the tuple that indexes self._neighborhood_cache), cross-checked by probing the cache"
+        else:
+            keys[c] = probe[c]
+            key_how[c] = "probe (two calls differing in one argument leave two cache entries)"
     pev, pod = _hex_tables_probe()
     how = "probe (radius-1 neighbourhoods of an even and an odd interior column of a HexSingleGrid; sorted)"
     ev, od = pev, pod
@@ -1776,6 +1876,7 @@ def gen_tables():
         ev, od = t
         how = "ast (the two `adjacent` list literals of `_HexGrid.get_neighborhood`, evaluated at (0, 0)), cross-checked by probing a HexSingleGrid"
     f = lambda l: "[" + ", ".join(f"({a}, {b})" for a, b in l) + "]"  # noqa: E731
+    fs = lambda l: "[" + ", ".join('"' + x + '"' for x in l) + "]"  # noqa: E731
     content = f"""/-! GENERATED by harness/legacy_common.py:gen_tables() from mesa/space.py — do not edit.
 source: {how} -/
 namespace Mesa.Legacy.Gen
@@ -1785,6 +1886,18 @@ def hexEven : List (Int × Int) := {f(ev)}
 
 /-- offsets of the six neighbours of a hexagon in an odd column, in source order -/
 def hexOdd : List (Int × Int) := {f(od)}
+
+/-- parameters of `_Grid.get_neighborhood` (without `self`) — source: {key_how["_Grid"]} -/
+def nbhdParams : List String := {fs(keys["_Grid"][0])}
+
+/-- the arguments that make up the key of `_neighborhood_cache` in `_Grid.get_neighborhood` -/
+def nbhdCacheKey : List String := {fs(keys["_Grid"][1])}
+
+/-- parameters of `_HexGrid.get_neighborhood` — source: {key_how["_HexGrid"]} -/
+def hexParams : List String := {fs(keys["_HexGrid"][0])}
+
+/-- the arguments that make up the cache key in `_HexGrid.get_neighborhood` -/
+def hexCacheKey : List String := {fs(keys["_HexGrid"][1])}
 
 end Mesa.Legacy.Gen
 """
